@@ -13,6 +13,7 @@ LEVEL_TEXT = (
     '1-3 live sessions of different negotiated kinds at once (iBGP/eBGP, local AS above 65535, peer with/without ASN4, ADD-PATH, 4096/65535); '
     'each remote speaker decodes what arrives with the independent reference codec and compares with the structured values and the RFC '
     'defaults for that session. The schedule is not what this property quantifies over: segmentation/pass cost vary only as a metamorphic side condition.'
+    ' Routes differing only by prefix and next hop (same attribute values) are announced together.'
 )
 LEVEL_NOTE = 'trusts: the reference codec (refbgp) and the text generator; session-destroying faults are off in these runs'
 DESIGN_REF = 'DESIGN.md section 5, C01'
